@@ -5,7 +5,8 @@ import PsModel.Spec.C12
 
 `C12 (life legacy|new (SVC…) (OP…))` → `ok model=(STEP…) spec=(STEP…)`
   OP   = (define ctx fn|- var gen ((svc resp)…)) | (start ctx (gen…)) | (delete ctx var) | (unload ctx)
-       | (obs) | (call svc rr ctxval ((k v)…))           only `obs` and `call` print a STEP
+       | (obs) | (call svc rr ctxval ((k v)…)) | (calls svc rr ctxval (((k v)…)…))    only these print a STEP;
+         `calls` = overlapping calls of one service → (calls (call …) (call …) …), one answer per call
   STEP = (state (svc has cnt owner gen resp)… (flags inadm underflow))   for an obs   (spec: (svc has gen resp))
        | (call notfound | invalid | (ran gen ((k v)…) rr))               for a call
 `C12 (split service_call|domain_service|entity_method taskctx|- target-resp entity ((key ty val)…))`
@@ -36,6 +37,7 @@ def kv? (x : Sexp) : Option (String × String) :=
 inductive DOp
   | life (op : Op)
   | call (svc : Svc) (rr : Bool) (ctxVal : String) (data : Kw)
+  | calls (svc : Svc) (rr : Bool) (ctxVal : String) (datas : List Kw)      -- overlapping calls of one service
   | obs
 
 def dop? (x : Sexp) : Option DOp :=
@@ -48,6 +50,10 @@ def dop? (x : Sexp) : Option DOp :=
   | .list [.atom "delete", .atom ctx, .atom var] => some (.life (.delete ctx var))
   | .list [.atom "unload", .atom ctx] => some (.life (.unload ctx))
   | .list [.atom "obs"] => some .obs
+  | .list [.atom "calls", .atom svc, rr, .atom cv, .list ds] => do
+    let r ← rr.bool?
+    let datas ← Sexp.mapM? (Sexp.listOf? kv?) ds
+    pure (.calls svc r cv datas)
   | .list [.atom "call", .atom svc, rr, .atom cv, d] => do
     let r ← rr.bool?
     let data ← Sexp.listOf? kv? d
@@ -96,12 +102,15 @@ def runM (cfg : Cfg) (univ : List Svc) : MState → List DOp → List Sexp
   | st, .life op :: r => runM cfg univ (step cfg st op) r
   | st, .obs :: r => stateS univ st :: runM cfg univ st r
   | st, .call k rr cv d :: r => callS (callOutcome cfg st.reg k cv d rr) :: runM cfg univ st r
+  | st, .calls k rr cv ds :: r =>
+    .list (.atom "calls" :: (overlapOutcome cfg st.reg k cv ds rr).map callS) :: runM cfg univ st r
 
 def runS (univ : List Svc) : SState → List DOp → List Sexp
   | _, [] => []
   | s, .life op :: r => runS univ (sStep s op) r
   | s, .obs :: r => sstateS univ s :: runS univ s r
   | s, .call k rr cv d :: r => callS (sCall s k cv d rr) :: runS univ s r
+  | s, .calls k rr cv ds :: r => .list (.atom "calls" :: ds.map (fun d => callS (sCall s k cv d rr))) :: runS univ s r
 
 def ty? : String → Option Ty
   | "context" => some .context | "bool" => some .bool | "int" => some .int | "float" => some .float
